@@ -11,7 +11,8 @@ rundemo() {
   if [ -f "$src/demo_test.go" ]; then
     pkg=$(head -1 "$src/demo_test.go" | sed -n 's#.*copy to: *\([^ ]*\).*#\1#p'); pkg=${pkg%/}
     cp "$src/demo_test.go" "$d/$pkg/zz_demo_test.go"
-    (cd "$d" && go test -vet=off -count=1 -run 'Demo' "./$pkg/" >/tmp/vseed.out 2>&1); rc=$?
+    names=$(grep -o '^func Test[A-Za-z0-9_]*' "$src/demo_test.go" | sed 's/func //' | paste -sd'|')
+    (cd "$d" && go test -vet=off -count=1 -run "^($names)\$" "./$pkg/" >/tmp/vseed.out 2>&1); rc=$?
     rm -f "$d/$pkg/zz_demo_test.go"
   else
     mkdir -p "$d/zz_demo" && cp "$src"/demo/*.go "$d/zz_demo/"
